@@ -8,7 +8,7 @@ CHECKS = {
   note="Trusted base: the independent G_conf grammar (harness/src/gen.rs, model.rs, alpide.rs) encodes the documented protocol; CLI = repository release profile without LTO.",
   technique="property-based testing: grammar-based generation (proptest-driven choice tape) + validity oracle (zero errors), delta-debugging shrinker"),
  "C02": dict(
-  text="Fault-catalogue testing on the real CLI: a conforming generated stream is altered so that exactly one documented rule is broken (48 catalogue entries with boundary values, applied at generated positions on the spec so that sizes and neighbouring words stay consistent; for sanity and reserved-bit rules also twice in one stream; a share of the runs with options that must not matter: verbosity, -d, -e 0, a custom-checks file that agrees with the data); in every mode where the rule is documented as active an error of the rule's code family must be located at the layout-map offset of the offending RDH / word and the exit status must be the configured -E value; purely stateful entries must leave `check sanity*` completely silent.",
+  text="Fault-catalogue testing on the real CLI: a conforming generated stream is altered so that exactly one documented rule is broken (49 catalogue entries with boundary values, applied at generated positions on the spec so that sizes and neighbouring words stay consistent; for sanity and reserved-bit rules also twice in one stream; a share of the runs with options that must not matter: verbosity, -d, -e 0, a custom-checks file that agrees with the data); in every mode where the rule is documented as active an error of the rule's code family must be located at the layout-map offset of the offending RDH / word and the exit status must be the configured -E value; purely stateful entries must leave `check sanity*` completely silent.",
   note="Trusted base: the catalogue in harness/src/props/c02.rs (rule -> code family -> active modes, from doc/checks_list.md and README); follow-on errors elsewhere are allowed; domain exclusions listed in the evidence assumptions.",
   technique="property-based testing with a fault catalogue (mutation of generated conforming specs) and a located-error oracle"),
  "C03": dict(
